@@ -19,12 +19,13 @@ TRUSTED_BASE = [
     "the implementation-side oracle in props/c04.py (activation-record interpreter in Python) is test infrastructure",
 ]
 ASSUMPTIONS = [
-    "procedure tables follow the generator's conventions: StateVars of a procedure are distinct, are not `.pc`/`.stack`, the preamble writes only the procedure's own variables",
+    "procedure tables follow the generator's conventions: StateVars of a procedure are distinct, are not `.pc`/`.stack`, the preamble writes only the procedure's own variables "
+    "and a local's initialiser is a constant, a parameter, or a parameter plus a constant (pexp), evaluated after the arguments are bound",
     "activation_isolation: body statements between call and matching return write only variables of the running activation's procedure or variables in the set R reached through references",
     "the code generator (Scala) is not available offline: the tables are hand-built as the property's observe_at allows; ProcedureSpaghetti.go is the only shipped user",
 ]
-RULE = ("cases = scripted archetypes over hand-built MPCalProc tables from one PRNG (VERIF_SEED): 1-3 procedures with 1-2 parameters (by value or by reference: the name of an "
-        "archetype local) and 0-1 locals, bodies that log their variables, write them, read and write through references (bound to archetype locals or to non-local resources of the archetype: a variable resource, an OutputChan, an InputChan that may refuse), and call / tail-call each other or themselves on a decreasing counter "
+RULE = ("cases = scripted archetypes over hand-built MPCalProc tables from one PRNG (VERIF_SEED): 1-3 procedures whose names are prefixes of one another (P/PP/PPQ, walk/walkBack/w) with 1-2 parameters (by value or by reference: the name of an "
+        "archetype local) and 0-1 locals (initialised by a constant or from the parameter), bodies that log their variables, write them, read and write through references (bound to archetype locals or to non-local resources of the archetype: a variable resource, an OutputChan, an InputChan that may refuse), and call / tail-call each other or themselves on a decreasing counter "
         "(depth <= 4, so recursion, mutual recursion and tail position all occur), a few attempts aborted after the call/return statement, plus a malformed stream (too many arguments, "
         "return on an empty stack, unknown label/procedure). Non-trivial = nesting depth >= 2 or a recursive or tail call was executed; distinct by canonical script text.")
 
@@ -336,9 +337,21 @@ def coq_stmt(s):
     raise ValueError(s)
 
 
+def coq_pexp(x):
+    if isinstance(x, list):
+        if x[0] == "v":
+            return "PRead %s" % vlib.coq_str(x[1])
+        if x[0] == "add" and x[1][0] == "v":
+            return "PAdd %s %s" % (vlib.coq_str(x[1][1]), vlib.coq_Z(x[2]))
+        if x[0] == "c":
+            return "PC %s" % coq_val(canon(x[1]))
+        raise ValueError(x)
+    return "PC %s" % coq_val(canon(x))
+
+
 def to_coq(case, res):
     procs = ["(%s, mkProc %s %s %s)" % (vlib.coq_str(p["name"]), vlib.coq_str(p["label"]), vlib.coq_list([vlib.coq_str(v) for v in p["vars"]]),
-                                       vlib.coq_list(["(%s, %s)" % (vlib.coq_str(w[0]), coq_val(canon(w[1]))) for w in p["pre"]])) for p in case["procs"]]
+                                       vlib.coq_list(["(%s, %s)" % (vlib.coq_str(w[0]), coq_pexp(w[1])) for w in p["pre"]])) for p in case["procs"]]
     lnames = sorted(case["labels"])
     table = "mkTable %s %s" % (vlib.coq_list(procs), vlib.coq_list([vlib.coq_str(l) for l in lnames]))
     labels = vlib.coq_list(["(%s, %s)" % (vlib.coq_str(l), vlib.coq_list([coq_stmt(s) for s in case["labels"][l]])) for l in lnames])
@@ -452,11 +465,9 @@ def run(ctx):
     ctx.samples = [{"labels": c["labels"], "procs": c["procs"], "go_log": c["_res"].get("log"), "go_attempts": (c["_res"].get("attempts") or [])[:3]} for c in cases[:3]]
     if ctx.coq_ok:
         from concurrent.futures import ThreadPoolExecutor
-        # the model's preamble holds constants only: scripts whose local initialisers read a parameter are checked
-        # by the implementation-side oracle alone
         has_expr_pre = lambda c: any(isinstance(w[1], list) for p in c["procs"] for w in p["pre"])
-        ok_cases = [c for c in cases if not (c["_res"].get("err") and c["_res"]["err"] != "budget") and not has_expr_pre(c)]
-        ctx.extra["oracle_only_scripts"] = sum(1 for c in cases if has_expr_pre(c))
+        ok_cases = [c for c in cases if not (c["_res"].get("err") and c["_res"]["err"] != "budget")]
+        ctx.extra["scripts_with_parameter_dependent_initialisers"] = sum(1 for c in cases if has_expr_pre(c))
         shard = 90 if ctx.tier == "quick" else 300
         parts = [ok_cases[s:s + shard] for s in range(0, len(ok_cases), shard)]
 
